@@ -419,6 +419,11 @@ def run(ctx) -> None:
     r3_r4_order(ctx)
     r5_order_offset(ctx)
     r6_static_wiring(ctx)
+    ctx.rule("C03.R8", "Call: the static port sits after the value inputs of the instantiated signature in the op itself (shared with C06.R4)", floor=3)
+    from .c06 import r4_call
+    from ..nf import NF
+    with ctx.as_rule(C06_R4="C03.R8"):
+        r4_call(ctx, NF(ctx.program))
     r2_single_use_iterators(ctx, files=("hugr.hugr.base", "hugr.package", "hugr.ext", "hugr.envelope"), rule="C03.R7")
     from .. import lints
     lints.arm(ctx)
